@@ -972,7 +972,9 @@ FormatterToHTML::writeAttrURI(
 
                     accumHexNumber(lowByte);
                 }
-                else if(isUTF16Surrogate(ch) == true) // high surrogate
+                else if(isUTF16Surrogate(ch) == true &&
+                        i + 1 < theStringLength &&
+                        0xDC00u <= theString[i + 1] && theString[i + 1] < 0xE000u) // high surrogate, followed by a low surrogate
                 {
                     // I'm sure this can be done in 3 instructions, but I choose 
                     // to try and do it exactly like it is done in the book, at least 
